@@ -386,5 +386,6 @@ MANIFEST_ENTRY = {
                    'record kinds are chosen by fork, residue-number digit / insertion code / chain are symbolic characters; oracle = an '
                    'executable specification of the statement (full residue identity: chain, number, insertion code). O2: finite tables '
                    '(every protein residue/atom name, every configured ion, 17 ligand environments) enumerated through the explorer. '
-                   'O3: report filter on 3 groups. Whole-pipeline micro-structure runs are part of C04/C12. Known finding: see known_findings.json.'),
+                   'O3: report filter on 3 groups. Whole-pipeline micro-structure runs are part of C04/C12. Known finding: see known_findings.json.'
+                   ' O4: whole pipeline on micro-structures (incl. a ligand/ion complex) under a symbolic grid translation: exactly the sites of the statement reported once with the tabulated model pKa; bridged cysteines 99.99.'),
 }
